@@ -111,7 +111,10 @@ def oracle_c08(b, report, modes=None):
                     cls = 'truncated-many-components'
                 report('rr-symlink-target:' + cls, 'symlink %s: an RRIP reader reassembles %r..., the target given was %r...'
                        % (p, (t or '')[:50], target[:50]), None)
-    if not relocated:
+    # a relocation directory in the root (made by the library or by the user) is counted by the physical link counts but is
+    # not part of the logical tree: with one present the counts are not compared (Model/Reloc.v states what they are)
+    moved = any(getattr(c, 'name', None) in (b'RR_MOVED', 'RR_MOVED') for c in getattr(rd.iso_root, 'children', []))
+    if not relocated and not moved:
         for m in reader.check_rr_nlink(rd):
             report('rr-nlink', 'link count: %s' % m.detail, m.offset)
 
